@@ -202,14 +202,14 @@ def run(ck):
             cases.append(dict(ev="groups", defs=env["defs"]))
         # code -> spec: random
         r_ = rng(12)
-        for _ in range(ck.pick(2500, 40000)):
+        for _ in range(ck.pick(1500, 40000)):
             lic = r_.random() < 0.8
             toks = [rand_tok(r_, lic=lic) for _ in range(r_.randint(0, 9))]
             cases.append(dict(ev="expand", toks=toks, init=sorted({x for x in "abcdz" if r_.random() < 0.3}),
                               defs=rand_defs(r_), all=sorted({x for x in "abcd" if r_.random() < 0.5})))
         for _ in range(ck.pick(40, 400)):
             cases.append(dict(ev="groups", defs=rand_defs(r_)))
-        for _ in range(ck.pick(400, 6000)):
+        for _ in range(ck.pick(250, 6000)):
             cases.append(dict(
                 ev="pull",
                 glob=[rand_tok(r_, lic=False, broken=0.01) for _ in range(r_.randint(0, 4))],
